@@ -194,8 +194,20 @@ package hamt
 //@ func (*hamt._UnixFSShardedDir__ListItr).next
 //@ prop C02 C15 C20
 //@ ensures exhausted-child-is-dropped: itr.childIter != nil ==> !itrDone(itr.childIter)
+// One step of the nested iterator with no sub-shard open: a value link of its own shard is stepped
+// over and yielded as it is; at the end of its own links nothing is yielded and no error reported.
+// (What a step does while a sub-shard is open needs an ownership frame for the recursive call that
+// these contracts do not have: bounded stand-ins c02/c15 only.)
+//@ ensures walks-the-same-list: itr._substrate == old(itr._substrate) && itr._substrate.n == old(itr._substrate.n)
+//@ ensures a-value-link-is-yielded-as-it-is: old(itr.childIter) == nil && old(itr._substrate.idx) < len(itr._substrate.n.x) && err == nil && len(itr._substrate.n.x[old(itr._substrate.idx)].Name.v.x) > itr.maxPadLen ==> result != nil && result.Hash.x == itr._substrate.n.x[old(itr._substrate.idx)].Hash.x && result.Name.v.x == itr._substrate.n.x[old(itr._substrate.idx)].Name.v.x && itr.childIter == nil && itr._substrate.idx == old(itr._substrate.idx) + 1
+//@ ensures nothing-is-yielded-past-the-end: old(itr.childIter) == nil && old(itr._substrate.idx) >= len(itr._substrate.n.x) ==> result == nil && err == nil && itr._substrate.idx == old(itr._substrate.idx) && itr.childIter == nil
+//@ ensures an-error-yields-nothing: err != nil ==> result == nil
 //@ func (*hamt._UnixFSShardedDir__ListItr).Next
+//@ prop C02 C15 C20
 //@ ensures exhausted-child-is-dropped: itr.childIter != nil ==> !itrDone(itr.childIter)
+//@ ensures a-yielded-link-carries-its-position: result1 != nil ==> result0 == old(itr.total) && result2 == nil
+//@ ensures nothing-yielded-means-minus-one: result1 == nil ==> result0 == -1
+//@ ensures walks-the-same-list: itr._substrate == old(itr._substrate) && itr._substrate.n == old(itr._substrate.n)
 
 //@ func hamt.NewUnixFSHAMTShardWithPreload
 //@ ensures any-load-failure-fails-the-preload: err == nil ==> loadFailed == old(loadFailed)
